@@ -8,6 +8,8 @@ carried by the retry is attempts+1 starting from 0; stop_after_attempt(n) evalua
 sequence executes max(n,1) times (finite AST evaluation for n = -1..6); retry_info numbers
 0,1,2…; the bookkeeping of an execution travels only with the re-queue of its own event to its own
 step; (R3) a policy answer of None never re-queues the failed event.
+Also (R2) the retry context handed to the step function is traced to its source: built from the in-progress entry in run_worker, or —
+when it travels on the command — supplied by every CommandRunWorker producer (a producer relying on a default hands out attempt 0).
 Not decided: that the measured number equals the time that really passed.
 """
 
@@ -19,8 +21,8 @@ from ..absint import Interp, Raised, Record, Unsupported
 from ..astx import call_name, calls_named, enclosing_stmt, expand, facts_at, has_fact, kwarg, last, reaching_def
 from ..cfg import CFG
 from ..index import AnchorError, FuncNode, Module, enclosing_function, parent, qualname_of
-from ..selftest import Twin
-from ._engine import CL, CL_REL, RUNNER, wf_modules
+from ..selftest import Twin, multi
+from ._engine import CL, CL_REL, RUNNER, param, wf_modules
 
 EXPLANATION = __doc__.split("\n\n", 1)[1]
 TECHNIQUE = 'static analysis: clock-domain taint over field-name-sensitive flows (WALL/MONO/adapter), attempt-accounting def-use, finite AST evaluation of stop_after_attempt'
@@ -274,14 +276,43 @@ def run(chk) -> None:
         ok = f is not None and isinstance(f, ast.BoolOp) and isinstance(f.op, ast.Or) and ast.unparse(f.values[0]).endswith(".first_attempt_at")
         chk.ob("C05.R2", "first_attempt_at is kept across retries and set to now only on the first execution", bool(ok), m=ms, node=c, fn=add, instance="accounting:first_attempt_at", reason=f"first_attempt_at={ast.unparse(f) if f is not None else None}")
     _, rw = repo.func(f"{RUNNER}.run_worker._run_worker")
-    ras = [c for c in ast.walk(rw) if isinstance(c, ast.Call) and last(call_name(c)) == "RetryAttempt"]
+    _, rwo = repo.func(f"{RUNNER}.run_worker")
+    cmdp = param(rwo, 1)
+    handed = [c for c in ast.walk(rw) if isinstance(c, ast.Call) and kwarg(c, "retry") is not None and last(call_name(c)) != "RetryAttempt"]
+    chk.floor("C05.R2", "step-function invocations receiving the retry context", len(handed), 1)
+    ras: list[tuple[ast.Call, ast.AST, object]] = []      # (RetryAttempt construction, function, module)
+    for h in handed:
+        r = expand(kwarg(h, "retry"), h, depth=3)
+        if isinstance(r, ast.Call) and last(call_name(r)) == "RetryAttempt":
+            ras.append((r, rw, ms))
+            continue
+        if isinstance(r, ast.Attribute) and isinstance(r.value, ast.Name) and r.value.id == cmdp:
+            # the retry context travels on the command: then *every* producer of CommandRunWorker must fill it from the
+            # execution's bookkeeping (a producer relying on the dataclass default hands the step a first-attempt context)
+            fld = r.attr
+            producers = [(m2, f2, c) for m2 in repo.modules.values() for f2 in m2.functions.values() for c in ast.walk(f2)
+                         if isinstance(c, ast.Call) and last(call_name(c)) == "CommandRunWorker" and enclosing_function(c) is f2]
+            chk.floor("C05.R2", "CommandRunWorker producers (retry context carried on the command)", len(producers), 1)
+            for m2, f2, c in producers:
+                v = kwarg(c, fld)
+                ve = expand(v, c, depth=3) if v is not None else None
+                built = isinstance(ve, ast.Call) and last(call_name(ve)) == "RetryAttempt"
+                chk.ob("C05.R2", "every producer of CommandRunWorker supplies the execution's retry context when run_worker takes it from the command", built, m=m2, node=c, fn=f2,
+                       instance=f"accounting:retry-context-source:{f2.name}",
+                       reason=f"run_worker passes `{cmdp}.{fld}` to the step function, but this CommandRunWorker({', '.join(k.arg or '**' for k in c.keywords)}) leaves `{fld}` to its default: "
+                              f"the execution it (re)starts sees retry_number 0 and no previous exception although its in-progress entry counts earlier failures")
+                if built:
+                    ras.append((ve, f2, m2))
+            continue
+        raise AnchorError(f"C05.R2: run_worker hands the step function retry={ast.unparse(kwarg(h, 'retry'))}, which is neither a RetryAttempt built from the in-progress entry nor a field of the command")
     chk.floor("C05.R2", "RetryAttempt constructions", len(ras), 1)
-    for c in ras:
+    for c, f2, m2 in ras:
         rn = kwarg(c, "retry_number")
-        chk.ob("C05.R2", "retry_info().retry_number is the execution's attempts count (0,1,2,…)", rn is not None and ast.unparse(rn).endswith(".attempts"), m=ms, node=c, fn=rw, instance="accounting:retry_number",
+        rns = ast.unparse(rn).replace(" ", "") if rn is not None else ""
+        chk.ob("C05.R2", "retry_info().retry_number is the execution's attempts count (0,1,2,…)", rns.endswith(".attempts") or rns.endswith(".attemptsor0"), m=m2, node=c, fn=f2, instance="accounting:retry_number",
                reason=f"retry_number={ast.unparse(rn) if rn is not None else None}")
         le = kwarg(c, "last_exception")
-        chk.ob("C05.R2", "retry_info().last_exception is the execution's last_exception", le is not None and ast.unparse(le).endswith(".last_exception"), m=ms, node=c, fn=rw, instance="accounting:last_exception",
+        chk.ob("C05.R2", "retry_info().last_exception is the execution's last_exception", le is not None and ast.unparse(le).endswith(".last_exception"), m=m2, node=c, fn=f2, instance="accounting:last_exception",
                reason=f"last_exception={ast.unparse(le) if le is not None else None}")
 
     # stop_after_attempt(n) on the producer's sequence failures = 1,2,3,…  executes max(n,1) times (finite AST evaluation)
@@ -358,6 +389,27 @@ TWINS = [
     Twin("retry even without delay", _P, "            if delay is not None:\n                commands.append(\n                    CommandQueueEvent(\n                        event=tick.event,", "            if delay is not None or failures < 2:\n                commands.append(\n                    CommandQueueEvent(\n                        event=tick.event,", "C05.R3"),
     Twin("retry_number one-based", _P, "                        retry_number=worker.attempts,", "                        retry_number=worker.attempts + 1,", "C05.R2"),
     Twin("benign: elapsed via two locals", _P, "            elapsed_time = result.failed_at - this_execution.first_attempt_at\n", "            t_failed = result.failed_at\n            elapsed_time = t_failed - this_execution.first_attempt_at\n", None),
-    Twin("benign: failures inline", _P, "                delay = retries.next(\n                    elapsed_time, failures, result.exception, **_seed_kwarg\n                )", "                delay = retries.next(\n                    elapsed_time, this_execution.attempts + 1, result.exception, **_seed_kwarg\n                )", None),
+    Twin("benign: failures inline", _P, "                    delay = retries.next(\n                        elapsed_time, failures, result.exception, **_seed_kwarg\n                    )", "                    delay = retries.next(\n                        elapsed_time, this_execution.attempts + 1, result.exception, **_seed_kwarg\n                    )", None),
     Twin("benign: stop predicate reversed", _RP, "        return attempts >= self.max_attempt_number", "        return self.max_attempt_number <= attempts", None),
+]
+
+_RW_OLD = """                    retry=RetryAttempt(
+                        retry_number=worker.attempts,
+                        first_attempt_at=worker.first_attempt_at,
+                        last_exception=worker.last_exception,
+                        last_failed_at=worker.last_failed_at,
+                        recovery_counts=dict(worker.recovery_counts),
+                    ),
+"""
+_ADD_OLD = "        commands.append(CommandRunWorker(step_name=step_name, event=event.event, id=id))\n"
+_ADD_NEW = ("        commands.append(CommandRunWorker(step_name=step_name, event=event.event, id=id, retry=RetryAttempt(retry_number=event.attempts or 0, "
+            "first_attempt_at=event.first_attempt_at or now_seconds, last_exception=event.last_exception, last_failed_at=event.last_failed_at, recovery_counts=dict(event.recovery_counts))))\n")
+_RERUN_OLD = "id=this_execution.worker_id,\n"
+_RERUN_NEW = ("id=this_execution.worker_id, retry=RetryAttempt(retry_number=this_execution.attempts, first_attempt_at=this_execution.first_attempt_at, "
+              "last_exception=this_execution.last_exception, last_failed_at=this_execution.last_failed_at, recovery_counts=dict(this_execution.recovery_counts)),\n")
+TWINS += [
+    Twin("retry context carried on the command; the in-place re-run producer leaves it at the default", _P,
+         *multi(_P, [(_RW_OLD, "                    retry=command.retry,\n"), (_ADD_OLD, _ADD_NEW)]), "C05.R2"),
+    Twin("benign: retry context carried on the command and filled by every producer", _P,
+         *multi(_P, [(_RW_OLD, "                    retry=command.retry,\n"), (_ADD_OLD, _ADD_NEW), (_RERUN_OLD, _RERUN_NEW)]), None),
 ]
